@@ -257,6 +257,7 @@ class Analyzer:
         self.known_funcs: Optional[Set[str]] = load_known_funcs()
         self.inlined_calls: List[Tuple[str, str, int]] = []
         self.spliced_at: Dict[int, FuncInfo] = {}  # id(call expression) -> helper spliced there
+        self.threaded: Set[int] = set()  # id(call expression) of spliced boolean helpers whose returns continue directly at the caller's branches
         self.env_site: Dict[int, int] = {}  # id(env of a spliced body) -> id(call expression)  # (caller, helper) pairs spliced, for the evidence
         self._summ: Dict[str, "Summary"] = {}
         self._summ_busy: Set[str] = set()
@@ -393,6 +394,7 @@ class Builder:
         self.root_f = f
         self.env = None
         self.inline_stack: List[str] = []
+        self.assume: Dict[Tuple[str, str], bool] = {}  # (function, local flag) -> truth value known in the statements being built
 
     # --------------------------------------------------------------- helpers
     def mk(self, op: str, node: Optional[ast.AST] = None, stmt: Optional[ast.AST] = None) -> Node:
@@ -489,7 +491,7 @@ class Builder:
         inner = strip_cast(aw.value)
         n.suspends = True
         if isinstance(inner, ast.Call):
-            cal = self.sc.callee(inner)
+            cal = self._assumed_callee(inner) or self.sc.callee(inner)
             n.awaited = cal
             if cal.kind == "pkg":
                 s = self.an.callee_summary(cal)
@@ -524,7 +526,8 @@ class Builder:
                 out.append(("x", (EXCEPTION, False)))
             elif isinstance(inner, ast.Name) or isinstance(inner, ast.Attribute):
                 t = self.sc.ty(inner)
-                if t is not None and t.head == "UserValue":
+                if (t is not None and t.head == "UserValue") or self._is_user_value(inner):
+                    # (a value typed Any / object is something the user's code produced)
                     n.user = True
                     n.awaited_user = True
                 out.append(("x", (EXCEPTION, False)))
@@ -797,6 +800,190 @@ class Builder:
         self.edge(n, body)
         return n
 
+    # ---------------------------------------------------- boolean helpers: branch threading
+    def _flag_call(self, e: Optional[ast.AST]):
+        """e is `[not] [await] helper(...)` with a helper that is spliced in -> (negated, await node or None, call, helper)"""
+        if e is None:
+            return None
+        neg = False
+        e = strip_cast(e)
+        while isinstance(e, ast.UnaryOp) and isinstance(e.op, ast.Not):
+            neg = not neg
+            e = strip_cast(e.operand)
+        aw = e if isinstance(e, ast.Await) else None
+        inner = strip_cast(e.value) if aw is not None else e
+        if isinstance(inner, ast.Call):
+            t = self._inline_target(self.sc.callee(inner), aw is not None)
+            if t is not None:
+                return neg, aw, inner, t
+        return None
+
+    def _inline_threaded(self, aw: Optional[ast.Await], call: ast.Call, t: FuncInfo, k_true: Node, k_false: Node, ctx: Ctx, stmt: ast.AST) -> Node:
+        """Splice helper t where only the truth of its result matters: every `return v` of the helper continues at k_true /
+        k_false according to v (a test step on v unless v is a constant), so the branch taken stays tied to the path through
+        the helper.  Falling off the end returns None (false)."""
+        r_true = self.mk("inl_ret", call, stmt)
+        r_false = self.mk("inl_ret", call, stmt)
+        r_true.inlined = r_false.inlined = t
+        self.edge(r_true, k_true)
+        self.edge(r_false, k_false)
+
+        def route(rst: Optional[ast.Return]) -> Node:
+            if rst is None or rst.value is None:
+                return r_false
+            v = strip_cast(rst.value)
+            while isinstance(v, ast.Call) and isinstance(v.func, ast.Name) and v.func.id == "bool" and len(v.args) == 1 and not v.keywords:
+                v = strip_cast(v.args[0])
+            c = self._const_truth(v)
+            if c is True:
+                return r_true
+            if c is False:
+                return r_false
+            tn = self.mk("test", v, rst)
+            self.edge(tn, r_true, T)
+            self.edge(tn, r_false, F)
+            return tn
+
+        return self._inline_routed(aw, call, t, route, ctx, stmt)
+
+    def _inline_routed(self, aw: Optional[ast.Await], call: ast.Call, t: FuncInfo, route: Callable[[Optional[ast.Return]], Node], ctx: Ctx, stmt: ast.AST) -> Node:
+        """Splice helper t; route(return statement | None for falling off the end) names the continuation of each way out."""
+        n = self.mk("await" if aw is not None else "call", aw if aw is not None else call, stmt)
+        if aw is not None:
+            n.awaited = self.sc.callee(call)
+        else:
+            n.callee = self.sc.callee(call)
+        n.inlined = t
+        n.suspends = False
+        env = self._bind(call, t)
+        self.an.env_site[id(env)] = id(call)
+        n.benv = env
+        frame = self._frame()
+        self.an.inlined_calls.append((self.root_f.qual, t.qual, id(call)))
+        self.an.spliced_at[id(call)] = t
+        self.an.threaded.add(id(call))
+        fall = route(None)
+        self.f, self.sc, self.env, self.inline_stack = t, self.an.scope(t), env, self.inline_stack + [t.qual]
+        try:
+            top = Ctx((lambda: fall), None, None, ctx.raise_, None, route)
+            body = self.stmts(list(t.node.body), fall, top)
+        finally:
+            self._restore(frame)
+        self.edge(n, body)
+        its: List[Item] = []
+        for a in call.args:
+            its += linearise(a)
+        for kw in call.keywords:
+            its += linearise(kw.value)
+        return self.items(its, n, ctx, stmt, False)
+
+    @staticmethod
+    def _bare_test(tst: ast.AST) -> ast.AST:
+        while isinstance(tst, ast.UnaryOp) and isinstance(tst.op, ast.Not):
+            tst = tst.operand
+        if isinstance(tst, ast.Compare) and len(tst.ops) == 1 and isinstance(tst.ops[0], (ast.Is, ast.IsNot, ast.Eq, ast.NotEq)) \
+                and isinstance(tst.comparators[0], ast.Constant) and tst.comparators[0].value is None:
+            tst = tst.left
+        return tst
+
+    def _flag_used(self, name: str, body: List[ast.stmt], calls: bool) -> bool:
+        """a later statement tests the local (truth / `is None`) or - calls=True - calls it"""
+        for st in body:
+            for x in ast.walk(st):
+                if isinstance(x, (ast.If, ast.While, ast.IfExp, ast.Assert)):
+                    tst = self._bare_test(x.test)
+                    if isinstance(tst, ast.Name) and tst.id == name:
+                        return True
+                if calls and isinstance(x, ast.Call) and isinstance(x.func, ast.Name) and x.func.id == name:
+                    return True
+        return False
+
+    def _return_values(self, t: FuncInfo):
+        """[(return statement, key, value expr)] when every return of helper t yields a constant or a reference to a method of
+        its own instance (`self.m`), else None; falling off the end counts as `None`"""
+        sc = self.an.scope(t)
+        out = []
+        for x in sc._own_nodes():
+            if not isinstance(x, ast.Return):
+                continue
+            v = strip_cast(x.value) if x.value is not None else None
+            if v is None or (isinstance(v, ast.Constant) and (v.value is None or isinstance(v.value, (bool, int, str)))):
+                out.append((x, "const:" + repr(None if v is None else v.value), v if v is not None else ast.Constant(value=None)))
+            elif isinstance(v, ast.Attribute) and isinstance(v.value, ast.Name) and v.value.id == sc.selfname and t.cls is not None \
+                    and self.an.prog.lookup(t.cls, v.attr) is not None:
+                out.append((x, "method:" + v.attr, v))
+            else:
+                return None
+        return out
+
+    def _flag_assign(self, st: ast.stmt, rest: List[ast.stmt]):
+        """`flag = [await] helper(...)` (helper spliced in, flag bound once in this function) which a later statement of the
+        same block tests (or calls) -> (flag name, (negated, await, call, helper), return values | None)"""
+        if isinstance(st, ast.Assign) and len(st.targets) == 1 and isinstance(st.targets[0], ast.Name):
+            name, val = st.targets[0].id, st.value
+        elif isinstance(st, ast.AnnAssign) and isinstance(st.target, ast.Name) and st.value is not None:
+            name, val = st.target.id, st.value
+        else:
+            return None
+        fc = self._flag_call(val)
+        if fc is None or fc[0]:
+            return None
+        hows = self.sc.defs.get(name, [])
+        if len(hows) != 1 or name in self.sc.params:
+            return None
+        rv = self._return_values(fc[3])
+        if rv is not None and len({k_ for _r, k_, _v in rv} | {"const:None"}) > 4:
+            rv = None
+        if rv is not None and any(k_.startswith("method:") for _r, k_, _v in rv):
+            recv_self = isinstance(fc[2].func, ast.Attribute) and isinstance(fc[2].func.value, ast.Name) and fc[2].func.value.id == self.sc.selfname
+            if not recv_self:
+                rv = None
+        if not self._flag_used(name, rest, rv is not None):
+            return None
+        for x in ast.walk(self.f.node):
+            if isinstance(x, (ast.Nonlocal, ast.Global)) and name in x.names:
+                return None
+            if isinstance(x, ast.AugAssign) and isinstance(x.target, ast.Name) and x.target.id == name:
+                return None
+        return name, fc, rv
+
+    def _assumed(self, test: ast.AST) -> Optional[bool]:
+        neg = False
+        while isinstance(test, ast.UnaryOp) and isinstance(test.op, ast.Not):
+            neg = not neg
+            test = test.operand
+        res: Optional[bool] = None
+        if isinstance(test, ast.Name) and (self.f.qual, test.id) in self.assume:
+            kind, v = self.assume[(self.f.qual, test.id)]
+            if kind == "truth":
+                res = v
+            else:
+                res = bool(v.value) if isinstance(v, ast.Constant) else True
+        elif isinstance(test, ast.Compare) and len(test.ops) == 1 and isinstance(test.comparators[0], ast.Constant) and test.comparators[0].value is None \
+                and isinstance(test.left, ast.Name) and (self.f.qual, test.left.id) in self.assume and isinstance(test.ops[0], (ast.Is, ast.IsNot, ast.Eq, ast.NotEq)):
+            kind, v = self.assume[(self.f.qual, test.left.id)]
+            is_none: Optional[bool] = None
+            if kind == "truth":
+                is_none = False if v else None
+            else:
+                is_none = isinstance(v, ast.Constant) and v.value is None
+            if is_none is not None:
+                res = is_none if isinstance(test.ops[0], (ast.Is, ast.Eq)) else not is_none
+        if res is None:
+            return None
+        return (not res) if neg else res
+
+    def _assumed_callee(self, call: ast.Call) -> Optional[Callee]:
+        """`x(...)` where the statements being built know x to be `self.m` (returned by a spliced helper): the callee is that method"""
+        if isinstance(call.func, ast.Name) and (self.f.qual, call.func.id) in self.assume:
+            kind, v = self.assume[(self.f.qual, call.func.id)]
+            if kind == "value" and isinstance(v, ast.Attribute) and self.sc.selfname is not None:
+                syn = ast.Call(func=ast.Attribute(value=ast.Name(id=self.sc.selfname, ctx=ast.Load()), attr=v.attr, ctx=ast.Load()), args=call.args, keywords=call.keywords)
+                ast.copy_location(syn, call)
+                ast.fix_missing_locations(syn)
+                return self.sc.callee(syn)
+        return None
+
     # ------------------------------------------------------------ expressions
     def expr(self, e: Optional[ast.AST], k: Node, ctx: Ctx, stmt: ast.AST) -> Node:
         return self.items(linearise(e), k, ctx, stmt, False)
@@ -821,7 +1008,7 @@ class Builder:
             e = it.node
             if isinstance(e, ast.Call):
                 n = self.mk("call", e, stmt)
-                n.callee = self.sc.callee(e)
+                n.callee = self._assumed_callee(e) or self.sc.callee(e)
                 t = self._inline_target(n.callee, False)
                 if t is not None:
                     n.cond, n.comp = it.cond, in_comp
@@ -831,9 +1018,10 @@ class Builder:
             elif isinstance(e, ast.Await):
                 n = self.mk("await", e, stmt)
                 inner = strip_cast(e.value)
-                t = self._inline_target(self.sc.callee(inner), True) if isinstance(inner, ast.Call) else None
+                acal = (self._assumed_callee(inner) or self.sc.callee(inner)) if isinstance(inner, ast.Call) else None
+                t = self._inline_target(acal, True) if acal is not None else None
                 if t is not None:
-                    n.awaited = self.sc.callee(inner)
+                    n.awaited = acal
                     n.cond, n.comp = it.cond, in_comp
                     k = self._inline(n, inner, t, k, ctx, stmt)
                     continue
@@ -854,6 +1042,51 @@ class Builder:
 
     # -------------------------------------------------------------- statements
     def stmts(self, body: List[ast.stmt], k: Node, ctx: Ctx) -> Node:
+        if self.an.known_funcs is not None:
+            for i, st in enumerate(body):
+                fl = self._flag_assign(st, body[i + 1:])
+                if fl is None:
+                    continue
+                # the rest of the block is built twice, once for each truth value of the flag
+                name, (_neg, aw, call, t), rv = fl
+                key = (self.f.qual, name)
+
+                def cont(assumption) -> Node:
+                    saved = dict(self.assume)
+                    self.assume[key] = assumption
+                    try:
+                        rest_entry = self.stmts(body[i + 1:], k, ctx)
+                    finally:
+                        self.assume = saved
+                    an_ = self.mk("assign", st, st)
+                    self.edge(an_, rest_entry)
+                    return an_
+
+                if rv is None:
+                    k = self._inline_threaded(aw, call, t, cont(("truth", True)), cont(("truth", False)), ctx, st)
+                else:
+                    # one copy of the rest per distinct value the helper can return
+                    conts: Dict[str, Node] = {}
+                    by_stmt = {id(r_): (k_, v_) for r_, k_, v_ in rv}
+
+                    def route(rst: Optional[ast.Return], conts=conts, by_stmt=by_stmt, call=call, t=t, st=st) -> Node:
+                        k_, v_ = by_stmt[id(rst)] if rst is not None and id(rst) in by_stmt else ("const:None", ast.Constant(value=None))
+                        if k_ not in conts:
+                            frame = self._frame()
+                            self._restore(caller_frame)
+                            try:
+                                rn = self.mk("inl_ret", call, st)
+                                rn.inlined = t
+                                self.edge(rn, cont(("value", v_)))
+                            finally:
+                                self._restore(frame)
+                            conts[k_] = rn
+                        return conts[k_]
+
+                    caller_frame = self._frame()
+                    k = self._inline_routed(aw, call, t, route, ctx, st)
+                body = body[:i]
+                break
         for st in reversed(body):
             k = self.stmt(st, k, ctx)
         return k
@@ -991,8 +1224,15 @@ class Builder:
             self.edge(n, ctx.cont())
             return n
         if isinstance(st, ast.If):
+            fc = self._flag_call(st.test)
+            if fc is not None:
+                neg, aw, call, t = fc
+                b_then, b_else = self.stmts(st.body, k, ctx), self.stmts(st.orelse, k, ctx)
+                return self._inline_threaded(aw, call, t, b_else if neg else b_then, b_then if neg else b_else, ctx, st)
             br = self.mk("test", st.test, st)
             c = self._const_truth(st.test)
+            if c is None:
+                c = self._assumed(st.test)
             if c is not False:
                 self.edge(br, self.stmts(st.body, k, ctx), T)
             if c is not True:
